@@ -8,6 +8,7 @@ from numpy.random import choice
 from jaqalpaq.core.result import ExecutionResult, Readout
 from jaqalpaq.core.result import ProbabilisticSubcircuit
 from jaqalpaq.core.algorithm.walkers import TraceVisitor, DiscoverSubcircuits
+from jaqalpaq import _verif_trace
 
 
 class AbstractJob:
@@ -174,6 +175,7 @@ class IndependentSubcircuitsEmulatorWalker(TraceVisitor):
         mr = Readout(nxt, self.readout_index)
         subcircuit.accept_readout(mr)
         self.results.append(mr)
+        _verif_trace.emit("visit", sub=self.index, readout=self.readout_index, value=int(nxt))
         self.readout_index += 1
 
 
